@@ -33,15 +33,22 @@ Verdict(e) ==
                 gi == GoodIdx(cfg)
             IN IF UsesJqSpelling(e.toks) /\ e.exit = 2 /\ e.stdout = "" THEN "args.jq_rawfile_spelling_rejected"
                ELSE IF ~namesOK THEN "BADTAG"
+               ELSE IF EmptyRawText(cfg) /\ e.exit = Built(cfg).exit /\ e.stdout = Built(cfg).out /\ e.stdout # r.out
+                    THEN "rawinput.empty_text_yields_one_empty_line"
                ELSE IF e.exit # r.exit THEN "exit." \o tag \o ".req" \o ToString(r.exit) \o ".got" \o ToString(e.exit)
                ELSE IF e.stdout # r.out THEN "out." \o tag
                ELSE IF IndepApplies(cfg) /\ Len(e.fidx) > 0 /\ Len(e.solo) = Len(e.fidx)
-                       /\ e.stdout # CatStr([k \in 1 .. Len(gi) |-> e.solo[gi[k]].stdout]) THEN "indep." \o tag
+                       /\ e.stdout # CatStr([k \in 1 .. Len(gi) |-> e.solo[gi[k]].stdout])
+                    THEN \* the known empty-text defect shows in the SOLO run of an empty file under --raw-input
+                         IF cfg.mode = "raw" /\ e.stdout = CatStr([k \in 1 .. Len(gi) |->
+                                IF KindContent(cfg.inputs[gi[k]].kind) = <<>> THEN "" ELSE e.solo[gi[k]].stdout])
+                         THEN "rawinput.empty_text_yields_one_empty_line"
+                         ELSE "indep." \o tag
                ELSE ""
 Drift(e) ==
     LET it == Intent(e.toks) IN
     \/ ~RefinesIntent(e.toks) /\ ~UsesJqSpelling(e.toks)
-    \/ it.st = "ok" /\ LET cfg == OptEval(it.flags, it.pos, e.stdin) IN cfg.st = "ok" /\ Built(cfg) # Req(cfg)
+    \/ it.st = "ok" /\ LET cfg == OptEval(it.flags, it.pos, e.stdin) IN cfg.st = "ok" /\ Built(cfg) # Req(cfg) /\ ~EmptyRawText(cfg)
 
 TInit == l = 1
 TNext == /\ l <= Len(Trace)
